@@ -305,6 +305,9 @@ fn enumerate(depth: usize, ops: &[Op]) -> Vec<Vec<Op>> {
 
 pub fn replay(case: &Value) -> Vec<Violation> {
     quiet_panics();
+    if case.get("point").is_some() && case.get("kind").map(|k| k != "big_batch").unwrap_or(false) {
+        return crate::preempt_family::replay(case);
+    }
     let prefix: Vec<Op> = serde_json::from_value(case["prefix"].clone()).unwrap_or_default();
     let hist: Vec<Op> = serde_json::from_value(case["history"].clone()).unwrap_or_default();
     let cfg: Config = serde_json::from_value(case["config"].clone()).unwrap_or(Config { workers: 1, sort: None, eager_merges: false });
@@ -467,9 +470,16 @@ pub fn run(ctx: &Ctx) -> Report {
         Ok(Some((r, w))) => total.violation(Violation::new(&r, w, json!({"kind":"big_batch"}))),
         Err(e) => total.violation(Violation::new("history_panic", format!("big batch: {}", panic_message(e)), json!({"kind":"big_batch"}))),
     }
+    // schedule dimension: merge thread / updater preempted by writer operations, restarts, rollbacks; overlapping
+    // merges; a commit racing with the end of a merge (E-PREEMPT, shared with C04)
+    let p = crate::preempt_family::run_family(ctx, "C02");
+    let complete = complete && p.complete;
+    rep.set("preemption_scenarios", Value::Array(p.info));
+    rep.set("schedules", p.st.counters.get("preemptions_fired").copied().unwrap_or(0));
+    total.merge(p.st);
     rep.set("exhaustive", complete);
     rep.set("phases", Value::Array(phase_info));
-    rep.set("rule", "every history of exactly D operations over the 15-operation alphabet {add a, add b, delete a, delete b, delete last id, delete_query(a AND NOT first id), run([add a, delete a, add a]), delete_all_documents, commit, prepare+payload+commit, prepare+abort, rollback, merge all, drop+reopen, wait_merging_threads+reopen} whose last operation observes (shorter histories are prefixes; a<->b symmetry removed), from the initial state and three non-initial states, under {1 worker}, {1 worker, segment cut after every document}, {2 workers}, {2 workers, cut after 2} and, with a merge policy that merges whenever two segments exist, {1 worker, cut after 1}, {2 workers, cut after 1}; plus one designated operation batch larger than the memory budget: after every observing operation a fresh searcher (ids, keys, stored and fast fields, postings) equals the reference model; opstamps increase, the commit opstamp exceeds them and equals meta.json's. Non-trivial: history with a commit and a delete / rollback / batch; histories are distinct by construction");
+    rep.set("rule", "every history of exactly D operations over the 15-operation alphabet {add a, add b, delete a, delete b, delete last id, delete_query(a AND NOT first id), run([add a, delete a, add a]), delete_all_documents, commit, prepare+payload+commit, prepare+abort, rollback, merge all, drop+reopen, wait_merging_threads+reopen} whose last operation observes (shorter histories are prefixes; a<->b symmetry removed), from the initial state and three non-initial states, under {1 worker}, {1 worker, segment cut after every document}, {2 workers}, {2 workers, cut after 2} and, with a merge policy that merges whenever two segments exist, {1 worker, cut after 1}, {2 workers, cut after 1}; plus one designated operation batch larger than the memory budget: after every observing operation a fresh searcher (ids, keys, stored and fast fields, postings) equals the reference model; opstamps increase, the commit opstamp exceeds them and equals meta.json's. Schedules: a merge of committed segments is preempted in front of every storage operation of its merge thread and of the updater finishing it by seven writer-side actions, by a writer restart and by a rollback; all 24 ordered pairs of merges sharing a source are requested together; a commit is held at every storage operation until a concurrent merge asks for publication: the published documents, opstamp and payload are those of the last commit. Non-trivial: history with a commit and a delete / rollback / batch; histories are distinct by construction");
     rep.set("states", total.counters.get("observations").copied().unwrap_or(0).max(1));
     rep.set("transitions", total.counters.get("transitions").copied().unwrap_or(0).max(1));
     rep.set("traces_validated_against_impl", total.evaluations);
